@@ -81,9 +81,9 @@ impl LineParser {
         if self.allow_multiple_commands || self.command.is_empty() {
             if let Some(line) = line.strip_prefix("$ ") {
                 self.in_command = true;
-                if !self.command.is_empty() {
-                    self.end_testcase(index)?;
-                }
+                // also when there is no previous command: lines that precede
+                // the first command must not become part of this testcase
+                self.end_testcase(index)?;
                 if self.output_start_index.is_none() {
                     self.output_start_index = Some(index);
                 }
